@@ -203,10 +203,15 @@ def run(ck):
                                    ["req", 7, "completion", "a.td", 5, 8], ["req", 8, "completion", "a.td", 5, 22], ["req", 9, "completion", "a.td", 5, 30],
                                    ["req", 10, "foldingRange", "a.td"], ["req", 11, "inlayHint", "a.td", 0, 0, 12, 0], ["req", 12, "references", "a.td", 3, 6],
                                    ["idle"], ["reqraw", 13, "shutdown", None], ["idle"], ["notify", "exit", None]],     # (the client waits for its answers before it ends the session)
+        # a document that is not a file arrives while the diagnostics run of a big file is still going (two runs overlap: such a
+        # notification does not wait for the snapshots), then the file is edited
+        "non-file-document-while-a-run-is-going": [["open", "a.td", huge], ["openuri", "untitled:Untitled-1", "class U;\n"], ["changeuri", "untitled:Untitled-1", "class V;\n"],
+                                                    ["change", "a.td", huge + "// x\n"], ["req", 1, "documentSymbol", "a.td"], ["idle"],
+                                                    ["openuri", "untitled:Untitled-2", "class W;\n"], ["change", "a.td", huge + "// y\n"], ["req", 2, "hover", "a.td", 0, 7]],
         "position-far-outside-the-text": [["open", "a.td", "class A;\n"], ["idle"], ["req", 1, "hover", "a.td", 4000000000, 4000000000], ["req", 2, "completion", "a.td", 7, 0],
                                           ["req", 3, "inlayHint", "a.td", 0, 0, 4000000000, 0], ["req", 4, "documentSymbol", "a.td"]],
     }
-    olines = ["srv " + json.dumps({"dir": "%s/tmp/odd%d" % (core.BUILD, i), "disk": {}, "script": sc, "timeout_ms": 6000}) for i, sc in enumerate(odd.values())]
+    olines = ["srv " + json.dumps({"dir": "%s/tmp/odd%d" % (core.BUILD, i), "disk": {}, "script": sc, "timeout_ms": 20000}) for i, sc in enumerate(odd.values())]
     orr = core.impl(olines, timeout=120, jobs=4, tag="o08")
     for (name, sc), line, r in zip(odd.items(), olines, orr):
         try:
